@@ -38,7 +38,7 @@ def report_history_failures(ctx, results, prop):
         kind, step, what = f
         hist = r.get("hist") or []
         op = hist[step][0] if 0 <= step < len(hist) else "?"
-        replay = {"seed": r["seed"], "n_points": r["n_points"], "start_spec": r["spec"], "history": hist, "failing_step": step,
+        replay = {"kind": "history", "seed": r["seed"], "n_points": r["n_points"], "start_spec": r["spec"], "history": hist, "failing_step": step,
                   "values": r.get("vals"), "how": "pv.edits.make_case(seed, n_points, length) regenerates the data; pv.edits.replay(spec, history, data)"}
         if kind == "EXC":
             ctx.fail("%s:%s:exception" % (prop, op), "an edit of the sampler grammar raised: %s" % what.splitlines()[0], replay)
@@ -128,3 +128,33 @@ def run(ctx):
         "the Tree's four redundant views are abstracted by pv.trees.abs_impl (checked after every edit), not modelled index by index",
         "the SMC result grafted by the subtree move is an arbitrary cache_ok tree in the theorem; in the tie it is a freshly built random tree over the extracted data",
     ]
+
+
+def _tuplify(x):
+    return tuple(_tuplify(y) for y in x) if isinstance(x, list) else x
+
+
+def replay_doc(ctx, doc, prop):
+    """Re-run exactly the recorded case on the implementation (framework: ./check Cxx --replay file)."""
+    rp = doc.get("replay", {})
+    if rp.get("kind") == "history" or "history" in rp:
+        case = edits.make_case(rp["seed"], rp["n_points"], 0)
+        spec, hist = _tuplify(rp["start_spec"]), [_tuplify(e) for e in rp["history"]]
+        _, f = edits.replay(spec, hist, case["data"])
+        ctx.case(key="replay", n=len(hist), sample={"replay": rp, "outcome": f})
+        r = {"seed": rp["seed"], "n_points": rp["n_points"], "spec": spec, "hist": hist, "failure": f, "length": len(hist), "ops": {}, "ns": case["ns"], "final": None}
+        report_history_failures(ctx, [r], prop)
+        ctx.log("replayed history: %s" % (f,))
+    elif "sampler_job_args" in rp:
+        from . import C07
+
+        res = edits.sampler_job(tuple(rp["sampler_job_args"]))
+        C07.report_sampler_results(ctx, [res], prop)
+        ctx.log("replayed sampler run: c06=%s c07=%s" % (res["c06"], res["c07"]))
+    else:
+        ctx.log("nothing to replay in this file (a tie/proof replay names the obligation that broke)")
+        print(doc)
+
+
+def replay(ctx, doc):
+    replay_doc(ctx, doc, "C06")
